@@ -75,8 +75,15 @@ Observe(w) == Act(w, {"stat", "listdir"})
 Move(w)    == Act(w, {"rename", "link", "unlink", "rmdir"})
 Exit(w)    == Act(w, {"exit"})
 
-Next == \E w \in Ws : \/ MkDir(w) \/ Create(w) \/ Write(w) \/ Close(w)
-                      \/ Read(w) \/ Observe(w) \/ Move(w) \/ Exit(w)
+AnyMkDir   == \E w \in Ws : MkDir(w)
+AnyCreate  == \E w \in Ws : Create(w)
+AnyWrite   == \E w \in Ws : Write(w)
+AnyClose   == \E w \in Ws : Close(w)
+AnyRead    == \E w \in Ws : Read(w)
+AnyObserve == \E w \in Ws : Observe(w)
+AnyMove    == \E w \in Ws : Move(w)
+AnyExit    == \E w \in Ws : Exit(w)
+Next == AnyMkDir \/ AnyCreate \/ AnyWrite \/ AnyClose \/ AnyRead \/ AnyObserve \/ AnyMove \/ AnyExit
 
 Spec == Init /\ [][Next]_vars
 
@@ -84,14 +91,15 @@ AllDone == \A w \in Ws : Done(loc[w], Prog[w])
 
 (* --- C24 on the model ------------------------------------------------------------------- *)
 \* no operation of any worker fails, whatever the others did in between
-NoOpFails == \A w \in Ws : loc[w].fail = ""
+NoOpFails == \A w \in Ws : loc[w].fail \in {"", "DIVERGED"}
+\* the model's serial run is meaningful only if no worker's recorded observations are contradicted in it
+SerialKnown == \A w \in Ws : ser.ls[w].fail = ""
 \* when all workers have finished the tree is the tree of the serial run
-FinalIsSerial == AllDone => fs = ser.fs
+FinalIsSerial == (AllDone /\ SerialKnown) => fs = ser.fs
 \* validity of the extracted operation lists: whatever a worker observes of the tree (own
 \* read-backs, stand-alone existence tests, listings) is what it observed when it ran alone
-ObsStable == \A w \in Ws : IsPrefix(loc[w].obs, alo[w].obs)
-\* sanity (assumptions of the extraction, not the property): each worker alone succeeds, and
-\* so does the serial run
-AloneOk == /\ \A w \in Ws : alo[w].fail = "" /\ Done(alo[w], Prog[w])
-           /\ \A w \in Ws : ser.ls[w].fail = ""
+ObsStable == /\ \A w \in Ws : loc[w].fail # "DIVERGED" /\ IsPrefix(loc[w].obs, alo[w].obs)
+             /\ \A w \in Ws : ser.ls[w].fail # "DIVERGED"
+\* sanity (assumption of the extraction, not the property): each worker alone succeeds
+AloneOk == \A w \in Ws : alo[w].fail = "" /\ Done(alo[w], Prog[w])
 =============================================================================
